@@ -38,6 +38,12 @@ type gCase struct {
 	Watch bool  `json:"watch_close,omitempty"`
 	Grace int   `json:"grace_ms,omitempty"`
 	Seed  int64 `json:"seed,omitempty"`
+	// HoldMs (gated mode): DURATION. With no gate opened yet — every call the pipeline can start sits on its gate, a
+	// CLOSE behind them waits for them — the calls are kept there for this long before the first gate is opened
+	// (longer than any plausible timeout constant in the code under test), and no Close may be entered meanwhile.
+	// A deliberate hold, not a hang deadline: it is not charged to the hang budget; it ends early when the soft
+	// deadline of the run passes.
+	HoldMs int `json:"hold_ms,omitempty"`
 	// Staged (gated mode): the requests are sent one by one, each only after every call that the requests before it
 	// make has reached its gate — a request that follows an OPEN then arrives while the handler of that OPEN is
 	// running. (From the first request on that the server cannot take in before a gate is opened, the rest of the
@@ -74,6 +80,7 @@ type gRun struct {
 	ServeErr  string
 	Final     map[string][]byte // handle name → final content (put / rw handles)
 	GraceViol string
+	HoldCut   string   // the long hold of the case (gCase.HoldMs) was cut short, and why
 	Opened    []string // handles handed out by OPEN/OPENDIR requests inside the pipeline
 	// PageViol: with every request received and some not yet answered, fewer pages were marked in use than requests
 	// were waiting for their reply (each of them owns the page its frame was received into until its reply is sent).
@@ -514,7 +521,7 @@ func gExec(cs *gCase) *gRun {
 			}
 			return nil
 		}
-		if cs.Grace <= 0 && !cs.Watch { // only cases that ask for it (C14)
+		if cs.Grace <= 0 && !cs.Watch && cs.HoldMs <= 0 { // only cases that ask for it (C14)
 			earlyClose = nil
 		}
 		for step := 0; ; step++ {
@@ -558,15 +565,27 @@ func gExec(cs *gCase) *gRun {
 			}); err != nil {
 				return fault("schedule/close-did-not-run/"+p.Server, fmt.Sprintf("with %d gates opened Close calls [%s] are due: %v", step, strings.Join(closes, " "), err), step)
 			}
-			if cs.Grace > 0 && len(st) > 0 && (step == 0 || len(closes) > gracedCloses) {
+			if len(st) > 0 && ((cs.Grace > 0 && (step == 0 || len(closes) > gracedCloses)) || (cs.HoldMs > 0 && step == 0)) {
 				// nothing else may start while the calls of st sit on their gates: give a missing barrier time to show.
 				// Done with no gate opened yet and again whenever a CLOSE has completed since (the pipeline has moved
 				// on to the requests behind it, the next CLOSE now stands behind the calls held at this moment).
+				// With no gate opened yet the hold lasts HoldMs where the case asks for that (a barrier that gives up
+				// after some time shows only when the calls in front of it take longer than that).
 				gracedCloses = len(closes)
-				time.Sleep(time.Duration(cs.Grace) * time.Millisecond)
+				hold := cs.Grace
+				if step == 0 && cs.HoldMs > hold {
+					hold = cs.HoldMs
+				}
+				held, cut, err := hub.holdFor(time.Duration(hold)*time.Millisecond, earlyClose)
+				if _, early := err.(earlyCloseErr); early {
+					return earlyFault(err, fmt.Sprintf("with %d gates opened, %d ms into a hold of %d ms that began when the calls of the requests before its CLOSE had all been started", step, held.Milliseconds(), hold))
+				}
+				if cut {
+					run.HoldCut = fmt.Sprintf("the hold of %d ms was ended after %d ms: soft deadline of the run", hold, held.Milliseconds())
+				}
 				if err := hub.waitBlockedUnless(keysOf(st), time.Millisecond, earlyClose); err != nil {
 					if _, early := err.(earlyCloseErr); early {
-						return earlyFault(err, fmt.Sprintf("with %d gates opened, within %d ms after the calls of the requests before its CLOSE had all been started", step, cs.Grace))
+						return earlyFault(err, fmt.Sprintf("with %d gates opened, within %d ms after the calls of the requests before its CLOSE had all been started", step, hold))
 					}
 					return fault("schedule/blocked-set-differs/"+p.Server, "after the grace period: "+err.Error(), step)
 				}
